@@ -518,6 +518,27 @@ func runCase(h *harnessState, w *world, caseNo int) {
 		return
 	}
 
+	if tc.exotic && r.Chance(40) {
+		// directed at the rollback of the rebuild path: a writer stores a change whose snapshot id is a
+		// snapshot that is NOT among its ancestors; later a batch that must go through
+		// rebuildFromStorage is refused (author cannot write) — heads and iteration must not move
+		o := w.byName["o"]
+		cite := w.recs[0].Id
+		if rp := tc.attached[tc.rootId]; rp != nil && !rp.derived && w.recIndex(rp.aclHead, tc.recvK) >= 0 {
+			cite = rp.aclHead
+		}
+		c1 := tc.buildChange(o, cite, []string{tc.rootId}, tc.rootId)
+		sn := tc.buildChange(o, cite, []string{c1.id}, tc.rootId, buildOpts{isSnapshot: true})
+		c2 := tc.buildChange(o, cite, []string{tc.rootId}, sn.id)
+		r.Count("directed.rebuild-rollback")
+		if tc.add([]*rawCh{c1, sn, c2}, "rollback-setup") == "ok" {
+			bad := tc.buildChange(w.byName["z"], cite, []string{sn.id, c2.id}, sn.id)
+			// `other` is attachable in any case and is refused by validation, so the call fails even when
+			// the reload inside rebuildFromStorage has already dropped c2 (and with it `bad`)
+			other := tc.buildChange(w.byName["z"], cite, []string{tc.rootId}, tc.rootId)
+			tc.add([]*rawCh{bad, other}, "rollback-refused")
+		}
+	}
 	pool, _ := tc.genPool(tc.attached[tc.rootId])
 
 	// delivery
